@@ -50,6 +50,19 @@ for c in cases:
         E = (fteikpy.Eikonal2D if nd == 2 else fteikpy.Eikonal3D)(np.ones(cells), d, o)
         E.resample(tuple(new))
         out.append({"gridsize": [float(x).hex() for x in E.gridsize], "shape": list(E.shape)})
+    elif c["kind"] == "smooth":
+        import fteikpy._base as B
+        cells, d, o = c["cells"], c["d"], c["o"]
+        nd = len(cells)
+        E = (fteikpy.Eikonal2D if nd == 2 else fteikpy.Eikonal3D)(np.ones(cells), d, o)
+        rec = []
+        orig = B.gaussian_filter
+        B.gaussian_filter = lambda a, sigma, *aa, **kw: (rec.append(np.ravel(np.asarray(sigma, dtype=float) * np.ones(nd)).tolist()), np.asarray(a))[1]
+        try:
+            E.smooth(c["sigma"] if len(c["sigma"]) > 1 else c["sigma"][0])
+        finally:
+            B.gaussian_filter = orig
+        out.append({"calls": [[float(x).hex() for x in r_] for r_ in rec], "gridsize": [float(x).hex() for x in E.gridsize], "shape": list(E.shape)})
     else:
         rays = [np.zeros((n, c["nd"])) for n in c["lens"]]
         mesh = fteikpy.ray_to_meshio(*rays)
@@ -161,6 +174,13 @@ def run_meta(n, seed, workdir):
         cases.append({"kind": "resample", "cells": cells, "d": d, "o": o, "new": new})
         gs = "; ".join(coqeval.flit(x) for x in d)
         terms.append(f"@resample_gridsize float NumF [{gs}] [" + "; ".join(f"{c}%Z" for c in cells) + "] [" + "; ".join(f"{c}%Z" for c in new) + "]")
+        # smooth: the filter must be called exactly once with sigma / gridsize per axis, in every unit system (m .. nm)
+        u = float(rs.choice([1.0, 1e-3, 1e3, 1e-9, 1e9, 1e-12]))
+        d2 = [x * u for x in d]
+        sig = [float(rs.uniform(0.3, 2.5)) * x for x in d2] if rs.rand() < 0.5 else [float(rs.uniform(0.3, 2.5)) * d2[0]]
+        cases.append({"kind": "smooth", "cells": cells, "d": d2, "o": [x * u for x in o], "sigma": sig})
+        sg = "; ".join(coqeval.flit(x) for x in (sig if len(sig) > 1 else sig * nd))
+        terms.append(f"@smooth_arg float NumF [{sg}] [" + "; ".join(coqeval.flit(x) for x in d2) + "]")
     os.makedirs(workdir, exist_ok=True)
     cpath, opath, spath = (os.path.join(workdir, x) for x in ("meta_cases.json", "meta_out.json", "api_child.py"))
     json.dump(cases, open(cpath, "w"))
@@ -176,11 +196,16 @@ def run_meta(n, seed, workdir):
     vals = coqeval.run_terms(terms, os.path.join(workdir, "coq"), header=hdr)
     failures = []
     for c, o_, v in zip(cases, outs, vals):
+        if c["kind"] == "smooth":
+            calls = [[float.fromhex(x) for x in r_] for r_ in o_["calls"]]
+            if calls != [v] or [float.fromhex(x) for x in o_["gridsize"]] != c["d"] or o_["shape"] != c["cells"]:
+                failures.append({"kernel": "_base.smooth", "why": f"filter calls {calls} (spacing {o_['gridsize']}, shape {o_['shape']}) vs model: one call with {v}, metadata kept", "meta": c})
+            continue
         got = [float.fromhex(x) for x in o_["gridsize"]]
         if got != v or o_["shape"] != c["new"]:
             failures.append({"kernel": "_base.resample", "why": f"metadata {got} / {o_['shape']} vs model {v} / {c['new']}", "meta": c})
     return {"cases": len(cases), "failures": failures, "unstable": [], "hangs": [],
-            "groups": {"resample_meta": {"n": len(cases), "agree": len(cases) - len(failures)}}, "samples": [cases[0]]}
+            "groups": {"resample_and_smooth_meta": {"n": len(cases), "agree": len(cases) - len(failures)}}, "samples": [cases[0], cases[1]]}
 
 
 CHILD_API = r'''
